@@ -1,6 +1,7 @@
 import QtVerif.Proofs.ParseExamples
 import QtVerif.Proofs.ParseReasons
 import QtVerif.Proofs.ParseNoCrash
+import QtVerif.Proofs.ParseClassify
 /-!
 C03 — The parser accepts exactly the expression grammar; printing is a parse fixpoint.
 
@@ -214,13 +215,9 @@ theorem blank_argument_reason (env : Env) (fname ws ws1 ws2 blank : List Char) (
   rw [← e]
   exact scan_blank_arg p (fname ++ ws) ts hh (args_fine env hargs) hbl rest c hc
 
-/-- What is proved about rejection reasons in general: a rejected text is not derivable, the model never reports
-its own artefact, `empty` is exact. Together with `call_reason` (exact decision between unknown-function /
-invalid-number-of-arguments / invalid-argument-kind / accept) and the sufficient causes `unexpected_end_reason`,
-`trailing_reason`, `blank_argument_reason` for the scanner-level reasons. Named `_partial` because the scanner-level
-reasons (unbalanced parentheses, unexpected end, unexpected character) are characterised for these single faults
-only, not declaratively for every text: see `reject_reasonFull`. -/
-theorem reject_reason_partial (env : Env) (s : List Char) (er : Err) (h : parse env s = .error er) :
+/-- Basic facts about every rejection: a rejected text is not derivable, the model never reports its own artefact,
+`empty` is exact. (The complete characterisation is `reason_complete_and_sound` below.) -/
+theorem reject_reason_basic (env : Env) (s : List Char) (er : Err) (h : parse env s = .error er) :
     (¬ ∃ e, Derives env e s) ∧ er.kind ≠ .fuel ∧ (er.kind = .empty ↔ AllSpace s) := by
   refine ⟨(rejected_iff_not_derivable env s).mp ⟨er, h⟩, parse_never_fuel env s er h, ?_⟩
   constructor
@@ -229,15 +226,64 @@ theorem reject_reason_partial (env : Env) (s : List Char) (er : Err) (h : parse 
     obtain ⟨er', h', hk'⟩ := (empty_reason_iff env s).mpr hs
     rw [h] at h'; cases h'; exact hk'
 
-/-- The full statement that `reject_reason_partial` falls short of: a declarative relation `Cause s k` ("the first
-offence in `s`, in the order the documented reasons are checked, is `k`"), given independently of the scanner, with
-`parse env s = .error er → Cause s er.kind` and `Cause s k → ∃ er, parse env s = .error er ∧ er.kind = k`.
-Missing: the declarative description of the first offending parenthesis / comma / character in an arbitrary text,
-in particular inside nested argument texts and in function names, ids and literals (`unbalanced`, `unexpectedEnd`,
-`unexpectedChar` beyond the single faults of `unexpected_end_reason`, `trailing_reason`, `blank_argument_reason`); the
-other four reasons are covered by `empty_reason_iff` and `call_reason`. Stated for a `Cause` supplied by the reader. -/
+/-! ## The complete classification of rejections
+
+`ClassifyAt env p s r` (`Proofs/ParseClassify.lean`) and `ScanErr pos t r` (`Proofs/ParseScanSpec.lean`) describe, for
+EVERY text, which error — reason, position, token, argument number — the grammar-level reading assigns, without
+reference to the scanning loop: the text is decomposed as `head ( t₁ , … , tₖ , …` where the head has no parenthesis and
+the `tᵢ` are complete argument texts (`Seg`: parentheses matched, no comma outside parentheses, by counting — `depth`,
+`OpenAt`), and the rule names what comes next (a `)` too early, a blank argument, the end of the text, something after
+the closing parenthesis, …) or, for a well-shaped call, the first failing check in the order the code makes them (name
+characters, registry, ENABLED, arity, the first rejected argument — recursively, with the arguments before it fine —,
+argument kinds). -/
+
+/-- **The scanner's verdict** on any text is the declarative one (`ScanErr`), with the exact position and token. -/
+theorem scanner_verdict (pos : Nat) (t : List Char) (er : Err) : scan pos t = .error er ↔ ScanErr pos t er :=
+  scan_err_iff pos t er
+
+/-- **Rejection reasons, complete and sound**: for every text, every start position and every error `r`
+(reason, position, token, argument number): the parser rejects with `r` iff the classification assigns `r`. -/
+theorem reason_complete_and_sound (env : Env) (p : Nat) (s : List Char) (r : Err) :
+    parseAt env p s = .error r ↔ ClassifyAt env p s r :=
+  ⟨parse_classify env _ p s r (Nat.lt_succ_self _), fun h => classify_parse env h _ (Nat.lt_succ_self _)⟩
+
+/-- The classification is functional: a text gets at most one error. -/
+theorem classify_unique (env : Env) (p : Nat) (s : List Char) (r r' : Err) (h : ClassifyAt env p s r)
+    (h' : ClassifyAt env p s r') : r = r' := by
+  have h1 := (reason_complete_and_sound env p s r).mpr h
+  have h2 := (reason_complete_and_sound env p s r').mpr h'
+  rw [h1] at h2; cases h2; rfl
+
+/-- Every text is either derivable or classified as a rejection, never both. -/
+theorem derivable_xor_classified (env : Env) (p : Nat) (s : List Char) :
+    ((∃ e, Derives env e s) ∨ ∃ r, ClassifyAt env p s r) ∧ ¬ ((∃ e, Derives env e s) ∧ ∃ r, ClassifyAt env p s r) := by
+  constructor
+  · cases h : parseAt env p s with
+    | ok e => exact Or.inl ⟨e, sound_aux env _ _ s e h⟩
+    | error r => exact Or.inr ⟨r, (reason_complete_and_sound env p s r).mp h⟩
+  · rintro ⟨⟨e, he⟩, ⟨r, hr⟩⟩
+    have h1 := complete_aux env (s.length + 1) e s p (Nat.lt_succ_self _) he
+    have h2 := (reason_complete_and_sound env p s r).mpr hr
+    rw [show parseAt env p s = parseFuel env (s.length + 1) p s from rfl, h1] at h2; cases h2
+
+/-- The former open statement `reject_reasonFull`, now proved for the reason-level classification `Classify`. -/
 def reject_reasonFull (Cause : Env → List Char → ErrKind → Prop) : Prop :=
   ∀ (env : Env) (s : List Char) (k : ErrKind), (∃ er, parse env s = .error er ∧ er.kind = k) ↔ Cause env s k
+
+theorem reject_reason_full : reject_reasonFull Classify := by
+  intro env s k
+  constructor
+  · rintro ⟨er, h, hk⟩; exact ⟨er, (reason_complete_and_sound env 1 s er).mp h, hk⟩
+  · rintro ⟨er, h, hk⟩; exact ⟨er, (reason_complete_and_sound env 1 s er).mpr h, hk⟩
+
+/-- **The reported position is the offending character's**: whenever the scanner reports unbalanced parentheses or
+an unexpected character, the position in the error is `pos` + the number of characters before an actual character of
+the text — a `)` in the first case, the reported token in the second. -/
+theorem error_position_is_offending_char (pos : Nat) (t : List Char) (er : Err) (h : scan pos t = .error er)
+    (hk : er.kind = .unbalanced ∨ er.kind = .unexpectedChar) :
+    ∃ before c rest, t = before ++ c :: rest ∧ er.pos = pos + before.length ∧
+      (er.kind = .unbalanced → c = ')') ∧ (er.kind = .unexpectedChar → er.tok = [c]) :=
+  scanErr_position (scanErr_of_scan h) hk
 
 /-! ## Non-vacuity -/
 
@@ -262,6 +308,23 @@ example : outcomeKind (parse exEnv "HISTORY($a, 1, 2)".toList) = .error .invalid
 example : outcomeKind (parse exEnv "  \t".toList) = .error .empty := by rfl
 example : outcomeKind (parse exEnv "HISTORY(@a, 1_0, ٣.٥e-1)".toList) =
     .ok (.call "HISTORY" [.portRef "a", .lit "1_0", .lit "٣.٥e-1"]) := by rfl
+/-- instances of the classification (obtained from the parser through `reason_complete_and_sound`): a nested fault
+is reported with its position in the whole text; a blank argument; a `)` too many; an unterminated nested call -/
+example : ClassifyAt exEnv 1 "ADD(1, FOO(2))".toList { kind := .unknownFunction, pos := 8, tok := "FOO".toList } :=
+  (reason_complete_and_sound exEnv 1 _ _).mp (by rfl)
+example : ClassifyAt exEnv 1 " ADD(1, , 2)".toList { kind := .unexpectedChar, pos := 9, tok := [','] } :=
+  (reason_complete_and_sound exEnv 1 _ _).mp (by rfl)
+example : ClassifyAt exEnv 1 "ADD(1, 2) )".toList { kind := .unbalanced, pos := 11 } :=
+  (reason_complete_and_sound exEnv 1 _ _).mp (by rfl)
+example : ClassifyAt exEnv 1 "ADD(1, ADD(2, 3)".toList { kind := .unexpectedEnd } :=
+  (reason_complete_and_sound exEnv 1 _ _).mp (by rfl)
+example : ClassifyAt exEnv 1 "ADD(1, ADD(2, @a))".toList
+    { kind := .invalidArgKind, pos := 15, tok := "ADD".toList, num := 2 } :=
+  (reason_complete_and_sound exEnv 1 _ _).mp (by rfl)
+example : Seg "ADD(1, (2))".toList ∧ ¬ Seg "1, 2".toList ∧ Open "ADD(1".toList := by
+  refine ⟨(seg_iff_walk _).mpr (by decide), fun h => ?_, (open_iff_walk _).mpr ⟨1, by decide⟩⟩
+  have := (seg_iff_walk _).mp h
+  revert this; decide
 /-- instances of the hypotheses of the reason theorems -/
 example : NameText "ADD".toList ∧ AllSpace " ".toList ∧ Tight "ADD (1, 2".toList ∧ Tight "ADD(1) x".toList ∧
     Tight "ADD(1, )".toList := by
